@@ -594,4 +594,254 @@ theorem Sim.bound {m : Mdl} {rmin rmax : Rat} (hb : Bnd m rmin rmax) {H : Nat} {
     rw [e] at this
     exact this
 
+
+/-- every return that was averaged into an action value of a node at depth `|q|` is an achievable return over
+    `k ≥ 1` steps that fit into the tree's step budget below that depth -/
+def RngInv (m : Mdl) (rmin rmax : Rat) (t : Tree) : Prop :=
+  ∀ q a x, x ∈ t.rets q a → ∃ k, 1 ≤ k ∧ k + q.length ≤ t.budget ∧ loR m.gamma rmin k ≤ x ∧ x ≤ hiR m.gamma rmax k
+
+theorem RngInv.of_eq {m : Mdl} {rmin rmax : Rat} {t t1 : Tree} (h : RngInv m rmin rmax t) (e1 : t1.rets = t.rets)
+    (e2 : t1.budget = t.budget) : RngInv m rmin rmax t1 := by
+  intro q a x hx; rw [e1] at hx; rw [e2]; exact h q a x hx
+
+theorem RngInv.update {m : Mdl} {rmin rmax : Rat} {t : Tree} (h : RngInv m rmin rmax t) (p : Path) (a : Nat) (rew : Rat)
+    (hr : ∃ k, 1 ≤ k ∧ k + p.length ≤ t.budget ∧ loR m.gamma rmin k ≤ rew ∧ rew ≤ hiR m.gamma rmax k) :
+    RngInv m rmin rmax (t.update p a rew) := by
+  intro q b x hx
+  show ∃ k, 1 ≤ k ∧ k + q.length ≤ t.budget ∧ _
+  have hx' : x ∈ upd t.rets p (updN (t.rets p) a (rew :: t.rets p a)) q b := hx
+  by_cases hq : q = p
+  · subst hq
+    simp only [upd, if_true] at hx'
+    by_cases hb : b = a
+    · subst hb
+      simp only [updN, if_true, List.mem_cons] at hx'
+      rcases hx' with rfl | hx'
+      · exact hr
+      · exact h q b x hx'
+    · simp only [updN, hb, if_false] at hx'
+      exact h q b x hx'
+  · simp only [upd, hq, if_false] at hx'
+    exact h q b x hx'
+
+/-- **every `simulate` call keeps all recorded returns within the achievable range** -/
+theorem Sim.rngInv {m : Mdl} {rmin rmax : Rat} (hb : Bnd m rmin rmax) {H : Nat} {t t' : Tree} {p : Path} {s depth : Nat}
+    {used : List Step} {r : Rat} (h : Sim m H t p s depth used t' r) :
+    depth < H → (H - depth + m.overrun) + p.length ≤ t.budget → RngInv m rmin rmax t →
+    RngInv m rmin rmax t' ∧ t'.budget = t.budget := by
+  induction h with
+  | stop t p s depth st t1 hs ha hv hd =>
+    intro hlt hbud hI
+    have hS := Sim.stop (m := m) (H := H) t p s depth st t1 hs ha hv hd
+    obtain ⟨_, _, _, e4, e5, _⟩ := descend_spec hd
+    have h1 : RngInv m rmin rmax t1 := hI.of_eq e4 e5
+    have hbd : t1.budget = t.budget := e5
+    refine ⟨h1.update p st.a st.r ⟨H - depth + m.overrun, by omega, by omega, hS.bound hb hlt⟩, hbd⟩
+  | roll t p s depth st t1 n used fr hs ha hv hd hR =>
+    intro hlt hbud hI
+    have hS := Sim.roll (m := m) (H := H) t p s depth st t1 n used fr hs ha hv hd hR
+    obtain ⟨_, _, _, e4, e5, _⟩ := descend_spec hd
+    have h1 : RngInv m rmin rmax t1 := hI.of_eq e4 e5
+    have hbd : t1.budget = t.budget := e5
+    refine ⟨h1.update p st.a _ ⟨H - depth + m.overrun, by omega, by omega, hS.bound hb hlt⟩, hbd⟩
+  | deeper t p s depth st t1 t2 used fr hs ha hv hd hS' ih =>
+    intro hlt hbud hI
+    have hS := Sim.deeper (m := m) (H := H) t p s depth st t1 t2 used fr hs ha hv hd hS'
+    obtain ⟨_, _, _, e4, e5, _, _, hm, _⟩ := descend_spec hd
+    have hd1 := (hm rfl).1
+    have h1 : RngInv m rmin rmax t1 := hI.of_eq e4 e5
+    have hbd : t1.budget = t.budget := e5
+    obtain ⟨h2, hb2⟩ := ih hd1 (by simp; omega) h1
+    refine ⟨h2.update p st.a _ ⟨H - depth + m.overrun, by omega, by omega, hS.bound hb hlt⟩, ?_⟩
+    show t2.budget = t.budget
+    rw [hb2, hbd]
+
+
+/-! ### Particles and node keys are consistent with the history (clause `particles_consistent`) -/
+
+/-- `par`: every particle of the node reached by history `q ++ [(a, o)]` is the outcome `s1` of a possible
+    transition of the generative model (`valid`) under action `a` with observation / key `o` from a particle of
+    the node reached by `q`.  (MCTS: the "particles" are the states the simulations passed through the node.)
+    `nex`/`pre`: nodes that do not exist hold no particles; existing nodes have existing parents. -/
+structure StrInv (m : Mdl) (t : Tree) : Prop where
+  nex : ∀ q, t.ex q = false → t.parts q = []
+  pre : ∀ q k, t.ex (q ++ [k]) = true → t.ex q = true
+  par : ∀ q k x, x ∈ t.parts (q ++ [k]) →
+    ∃ st : Step, st.s ∈ t.parts q ∧ m.valid st = true ∧ st.a = k.1 ∧ st.s1 = x ∧ m.key st = k.2
+
+theorem ne_append_singleton (p : Path) (k : Key) : p ≠ p ++ [k] := by
+  intro h
+  have := congrArg List.length h
+  simp at this
+
+theorem StrInv.descend {m : Mdl} {H : Nat} {t t1 : Tree} {p : Path} {depth : Nat} {st : Step} {mode : Mode}
+    (h : StrInv m t) (hex : t.ex p = true) (hs : st.s ∈ t.parts p) (hv : m.valid st = true)
+    (hd : descend m H t p depth st = some (t1, mode)) : StrInv m t1 := by
+  obtain ⟨_, _, _, _, _, _, hshape, _, _⟩ := descend_spec hd
+  have hne := ne_append_singleton p (st.a, m.key st)
+  cases hshape with
+  | created hc e1 e2 _ _ _ =>
+    refine ⟨fun q hq => ?_, fun q k hq => ?_, fun q k x hx => ?_⟩
+    · rw [e1] at hq; rw [e2]
+      by_cases hqc : q = p ++ [(st.a, m.key st)]
+      · simp [upd, hqc] at hq
+      · simp only [upd, hqc, if_false] at hq ⊢; exact h.nex q hq
+    · rw [e1] at hq ⊢
+      by_cases hqc : q ++ [k] = p ++ [(st.a, m.key st)]
+      · obtain ⟨rfl, _⟩ := List.append_inj' hqc rfl
+        simp only [upd, hne, if_false]; exact hex
+      · simp only [upd, hqc, if_false] at hq
+        have := h.pre q k hq
+        by_cases hq2 : q = p ++ [(st.a, m.key st)]
+        · simp [upd, hq2]
+        · simp only [upd, hq2, if_false]; exact this
+    · rw [e2] at hx ⊢
+      by_cases hqc : q ++ [k] = p ++ [(st.a, m.key st)]
+      · obtain ⟨rfl, hk⟩ := List.append_inj' hqc rfl
+        simp only [upd, hqc, if_true, List.mem_singleton] at hx
+        have hk' : k = (st.a, m.key st) := by simpa using hk
+        refine ⟨st, ?_, hv, by rw [hk'], hx.symm, by rw [hk']⟩
+        simp only [upd, hne, if_false]; exact hs
+      · simp only [upd, hqc, if_false] at hx
+        obtain ⟨st', h1, h2, h3, h4, h5⟩ := h.par q k x hx
+        refine ⟨st', ?_, h2, h3, h4, h5⟩
+        by_cases hq2 : q = p ++ [(st.a, m.key st)]
+        · rw [hq2, h.nex _ hc] at h1; simp at h1
+        · simp only [upd, hq2, if_false]; exact h1
+  | pushed hc e1 e2 _ =>
+    refine ⟨fun q hq => ?_, fun q k hq => ?_, fun q k x hx => ?_⟩
+    · rw [e1] at hq; rw [e2]
+      have hqc : q ≠ p ++ [(st.a, m.key st)] := by
+        intro hqc; rw [hqc, hc] at hq; simp at hq
+      simp only [upd, hqc, if_false]; exact h.nex q hq
+    · rw [e1] at hq ⊢; exact h.pre q k hq
+    · rw [e2] at hx ⊢
+      have hsub : ∀ q y, y ∈ t.parts q → y ∈ upd t.parts (p ++ [(st.a, m.key st)]) (t.parts (p ++ [(st.a, m.key st)]) ++ [st.s1]) q := by
+        intro q y hy
+        by_cases hq2 : q = p ++ [(st.a, m.key st)]
+        · subst hq2; simp only [upd, if_true]; exact List.mem_append_left _ hy
+        · simp only [upd, hq2, if_false]; exact hy
+      by_cases hqc : q ++ [k] = p ++ [(st.a, m.key st)]
+      · obtain ⟨rfl, hk⟩ := List.append_inj' hqc rfl
+        have hk' : k = (st.a, m.key st) := by simpa using hk
+        simp only [upd, hqc, if_true, List.mem_append, List.mem_singleton] at hx
+        rcases hx with hx | hx
+        · rw [← hqc] at hx
+          obtain ⟨st', h1, h2, h3, h4, h5⟩ := h.par q k x hx
+          exact ⟨st', hsub _ _ h1, h2, h3, h4, h5⟩
+        · exact ⟨st, hsub _ _ hs, hv, by rw [hk'], hx.symm, by rw [hk']⟩
+      · simp only [upd, hqc, if_false] at hx
+        obtain ⟨st', h1, h2, h3, h4, h5⟩ := h.par q k x hx
+        exact ⟨st', hsub _ _ h1, h2, h3, h4, h5⟩
+  | untouched e _ _ => rw [e]; exact h
+
+theorem StrInv.of_eq {m : Mdl} {t t1 : Tree} (h : StrInv m t) (e1 : t1.ex = t.ex) (e2 : t1.parts = t.parts) : StrInv m t1 := by
+  refine ⟨fun q hq => ?_, fun q k hq => ?_, fun q k x hx => ?_⟩
+  · rw [e1] at hq; rw [e2]; exact h.nex q hq
+  · rw [e1] at hq ⊢; exact h.pre q k hq
+  · rw [e2] at hx ⊢; exact h.par q k x hx
+
+/-- **every `simulate` call keeps the particles consistent with the histories of their nodes** -/
+theorem Sim.strInv {m : Mdl} {H : Nat} {t t' : Tree} {p : Path} {s depth : Nat} {used : List Step} {r : Rat}
+    (h : Sim m H t p s depth used t' r) : StrInv m t → t.ex p = true → s ∈ t.parts p → StrInv m t' := by
+  induction h with
+  | stop t p s depth st t1 hs _ hv hd =>
+    intro hI hex hsp
+    have h1 : StrInv m t1 := StrInv.descend (t := t.incN p) (hI.of_eq rfl rfl) hex (by rw [hs]; exact hsp) hv hd
+    exact h1.of_eq rfl rfl
+  | roll t p s depth st t1 n used fr hs _ hv hd _ =>
+    intro hI hex hsp
+    have h1 : StrInv m t1 := StrInv.descend (t := t.incN p) (hI.of_eq rfl rfl) hex (by rw [hs]; exact hsp) hv hd
+    exact h1.of_eq rfl rfl
+  | deeper t p s depth st t1 t2 used fr hs _ hv hd _ ih =>
+    intro hI hex hsp
+    have h1 : StrInv m t1 := StrInv.descend (t := t.incN p) (hI.of_eq rfl rfl) hex (by rw [hs]; exact hsp) hv hd
+    obtain ⟨_, _, _, _, _, _, _, hm, _⟩ := descend_spec hd
+    obtain ⟨_, hex1, hs1, _⟩ := hm rfl
+    exact (ih h1 hex1 hs1).of_eq rfl rfl
+
+
+/-- nodes are never removed by a simulation -/
+theorem Sim.ex_mono {m : Mdl} {H : Nat} {t t' : Tree} {p : Path} {s depth : Nat} {used : List Step} {r : Rat}
+    (h : Sim m H t p s depth used t' r) : ∀ q, t.ex q = true → t'.ex q = true := by
+  have key : ∀ {t t1 : Tree} {p : Path} {depth : Nat} {st : Step} {mode : Mode},
+      descend m H (t.incN p) p depth st = some (t1, mode) → ∀ q, t.ex q = true → t1.ex q = true := by
+    intro t t1 p depth st mode hd q hq
+    obtain ⟨_, _, _, _, _, _, hshape, _, _⟩ := descend_spec hd
+    cases hshape with
+    | created _ e1 _ _ _ _ =>
+      rw [e1]; by_cases hqc : q = p ++ [(st.a, m.key st)]
+      · simp [upd, hqc]
+      · simp only [upd, hqc, if_false]; exact hq
+    | pushed _ e1 _ _ => rw [e1]; exact hq
+    | untouched e _ _ => rw [e]; exact hq
+  induction h with
+  | stop t p s depth st t1 _ _ _ hd => intro q hq; exact key hd q hq
+  | roll t p s depth st t1 n used fr _ _ _ hd _ => intro q hq; exact key hd q hq
+  | deeper t p s depth st t1 t2 used fr _ _ _ hd _ ih => intro q hq; exact ih q (key hd q hq)
+
+/-! ### Whole calls and histories of calls -/
+
+/-- `Sims m H n t useds t'`: `n` simulations from the root, the i-th making exactly the calls `useds[i]` -/
+inductive Sims (m : Mdl) (H : Nat) : Nat → Tree → List (List Step) → Tree → Prop
+  | zero (t : Tree) : Sims m H 0 t [] t
+  | succ (n : Nat) (t t1 t2 : Tree) (s : Nat) (used : List Step) (r : Rat) (useds : List (List Step)) :
+      s ∈ t.parts [] → Sim m H t [] s 0 used t1 r → Sims m H n t1 useds t2 → Sims m H (n+1) t (used :: useds) t2
+
+theorem runSims_sound (m : Mdl) (H : Nat) : ∀ (n : Nat) (t : Tree) (log : List Step) (t' : Tree) (rest : List Step),
+    runSims m H n t log = some (t', rest) → ∃ useds, log = useds.flatten ++ rest ∧ Sims m H n t useds t' := by
+  intro n
+  induction n with
+  | zero =>
+    intro t log t' rest h
+    simp [runSims] at h
+    obtain ⟨rfl, rfl⟩ := h
+    exact ⟨[], rfl, Sims.zero t⟩
+  | succ n ih =>
+    intro t log t' rest h
+    cases log with
+    | nil => simp [runSims] at h
+    | cons st log =>
+      simp only [runSims] at h
+      split at h
+      · rename_i hc
+        split at h
+        · simp at h
+        · rename_i t1 r log' hsim
+          obtain ⟨used, hu, hS⟩ := simulate_sound m H _ _ _ _ _ _ _ _ _ hsim
+          obtain ⟨useds, hus, hSs⟩ := ih _ _ _ _ h
+          refine ⟨used :: useds, ?_, Sims.succ n t t1 t' st.s used r useds (by simpa using hc) hS hSs⟩
+          rw [hu, hus]; simp
+      · simp at h
+
+/-- everything the check relies on, for a tree between two public calls -/
+structure Inv (m : Mdl) (rmin rmax : Rat) (t : Tree) : Prop where
+  stat : StatInv (fun _ => 0) t
+  rng : RngInv m rmin rmax t
+  str : StrInv m t
+  root : t.ex [] = true
+
+theorem Sims.inv {m : Mdl} {rmin rmax : Rat} (hb : Bnd m rmin rmax) {H n : Nat} {t t' : Tree} {useds : List (List Step)}
+    (h : Sims m H n t useds t') : 0 < H → H + m.overrun ≤ t.budget → Inv m rmin rmax t →
+    Inv m rmin rmax t' ∧ t'.budget = t.budget ∧ useds.length = n ∧ ∀ u ∈ useds, u.length ≤ H + m.overrun := by
+  induction h with
+  | zero t => intro _ _ hI; exact ⟨hI, rfl, rfl, by simp⟩
+  | succ n t t1 t2 s used r useds hs hS _ ih =>
+    intro hH hbud hI
+    have h1 := hS.statInv _ hI.stat
+    obtain ⟨h2, hb2⟩ := hS.rngInv hb hH (by simpa using hbud) hI.rng
+    have h3 := hS.strInv hI.str hI.root hs
+    have hlen := hS.length_le hH
+    have hroot : t1.ex [] = true := by
+      -- nodes are never removed by a simulation: the root survives because particles were pushed below it
+      -- (direct: `ex` only ever gains entries)
+      exact Sim.ex_mono hS [] hI.root
+    obtain ⟨i1, i2, i3, i4⟩ := ih hH (by rw [hb2]; exact hbud) ⟨h1, h2, h3, hroot⟩
+    refine ⟨i1, by rw [i2, hb2], by simp [i3], ?_⟩
+    intro u hu
+    simp only [List.mem_cons] at hu
+    rcases hu with rfl | hu
+    · simpa using hlen
+    · exact i4 u hu
+
 end AITB.Tree
